@@ -8,7 +8,9 @@ import FgaVerif.Proofs.WGraph
     names) and by an independent edge oracle in the harness.
 
     Proved:
-    * `nodes_unique` — one node per unique label (type, `type#relation`, `type:*`, operator occurrence).
+    * `nodes_unique` — one node per unique label (type, `type#relation`, `type:*`, operator occurrence);
+      `types_and_relations_have_nodes` — every type and every defined relation of the model has its node;
+      `direct_assignment_complete` gives the node of every referenced userset and wildcard restriction.
     * `deduplicated_edges_distinct` — among the direct and TTU edges of one node no two share target,
       kind and tupleset label ("one direct edge per distinct target", "one TTU edge per parent type").
     * `conditions_are_sets` — the condition list of every edge is non-empty, has no repetition and never
@@ -36,6 +38,12 @@ open FgaVerif.Model FgaVerif.Model.WGraph
 
 theorem nodes_unique (m : Model) (g : G) (h : build m = .ok g) :
     (g.nodes.map (·.uniqueLabel)).Nodup := (build_inv m g h).labels
+
+/-- every type and every defined relation of the model has its node -/
+theorem types_and_relations_have_nodes (m : Model) (g : G) (h : build m = .ok g) :
+    ∀ td ∈ m.types, td.name ∈ g.nodes.map (·.uniqueLabel) ∧
+      ∀ ru ∈ td.relations, (td.name ++ "#" ++ ru.1) ∈ g.nodes.map (·.uniqueLabel) :=
+  build_labels m g h
 
 theorem deduplicated_edges_distinct (m : Model) (g : G) (h : build m = .ok g) (src : String) :
     (((edgesOf g src).filter (fun e => e.etype == .direct || e.etype == .ttu)).map
